@@ -221,12 +221,7 @@ func (x *fnCtx) startAtHeader(st *State, fr *Frame, h *ssa.BasicBlock, ord int) 
 		for _, n := range names {
 			if n == "$alloc" {
 				// allocation set grows: keep a fresh superset
-				old := x.heapArr(st, "$alloc", ArrSort(SInt, SBool))
-				nw := Fresh("H.$alloc", ArrSort(SInt, SBool))
-				bk := BVar("r", SInt)
-				st.assume(Forall([]*Term{bk}, Implies(Select(old, bk), Select(nw, bk)), Select(old, bk)))
-				st.assume(Not(Select(nw, IntLit(0))))
-				st.heap.m["$alloc"] = nw
+				x.growAlloc(st, x.con.Allocates, true)
 				continue
 			}
 			if srt, ok := heapSorts[n]; ok {
@@ -243,7 +238,7 @@ func (x *fnCtx) startAtHeader(st *State, fr *Frame, h *ssa.BasicBlock, ord int) 
 	// objects that existed at entry (checked at every arrival, see arriveAtHeader)
 	if x.con.HasMod && !x.con.ModAll {
 		for n, cur := range st.heap.m {
-			if strings.HasPrefix(n, "$") || x.coveredByModifies(n) {
+			if (strings.HasPrefix(n, "$") && n != "$maplen") || x.coveredByModifies(n) {
 				continue
 			}
 			idxS, _ := cur.Sort.ArrParts()
@@ -402,6 +397,9 @@ func (x *fnCtx) arriveAtHeader(st *State, fr *Frame, h, pred *ssa.BasicBlock, or
 	if x.eng.cfg.Layers["contract"] && x.con.HasMod && !x.con.ModAll && !x.collecting {
 		x.checkFrame(st, fr)
 	}
+	if x.eng.cfg.Layers["contract"] {
+		x.checkAllocates(st, fr)
+	}
 	x.lockCheckAtHeader(st, fr, ord, backEdge)
 }
 
@@ -444,6 +442,7 @@ func (x *fnCtx) checkPost(st *State, fr *Frame, res []*Val) {
 		if x.con.HasMod && !x.con.ModAll && !x.collecting {
 			x.checkFrame(st, fr)
 		}
+		x.checkAllocates(st, fr)
 	}
 	if x.eng.cfg.Layers["trace"] {
 		x.checkTrace(st, env, "trace_ensures")
@@ -454,10 +453,22 @@ func (x *fnCtx) checkPost(st *State, fr *Frame, res []*Val) {
 	}
 }
 
+func (x *fnCtx) checkAllocates(st *State, fr *Frame) {
+	if len(x.eng.tracked) > 0 && x.con != nil && !x.collecting {
+		// objects of tracked types are created only where the contract declares it
+		bk := BVar("r", SInt)
+		alloc0 := fr.oldHeap.get("$alloc", ArrSort(SInt, SBool))
+		cur := x.heapArr(st, "$alloc", ArrSort(SInt, SBool))
+		tags := x.eng.trackedTags(append([]string{}, x.con.Allocates...))
+		g := Forall([]*Term{bk}, Implies(And(Select(cur, bk), Not(Select(alloc0, bk))), typeAmong(bk, tags)), Select(typeHeap, bk))
+		x.addVC(st, x.short, "frame", 1, "allocates", g, "objects of tracked types are allocated only as declared (allocates)", "")
+	}
+}
+
 func (x *fnCtx) checkFrame(st *State, fr *Frame) {
 	var bad []string
 	for name, cur := range st.heap.m {
-		if strings.HasPrefix(name, "$") {
+		if strings.HasPrefix(name, "$") && name != "$maplen" {
 			continue
 		}
 		old, ok := fr.oldHeap.m[name]
